@@ -5,7 +5,7 @@
 g=$1; props=$2; shift 2
 nums=${@:-1 2 3 4 5}
 for n in $nums; do
-  p=/verif/benign/$g/patch$n.diff
+  p=${BENIGN_DIR:-/verif/benign}/$g/patch$n.diff
   [ -f "$p" ] || { echo "$g patch$n: missing"; continue; }
   for pr in ${props//,/ }; do
     out=$(/verif/selftest/run.py --patch "$p" --props "$pr" --no-suite -v 2>&1)
